@@ -178,6 +178,7 @@ class MbootCore:
             "flash": (self.FLASH_BASE, bytearray(rnd.randbytes(self.FLASH_SIZE))),
             "ram": (self.RAM_BASE, bytearray(rnd.randbytes(self.RAM_SIZE))),
         }
+        self.prop_regions: dict[int, list[list[int]]] = {}  # property tag -> values per region index (multi-region devices)
         self.ext = bytearray(rnd.randbytes(self.EXT_SIZE))
         self.ext_configured = False
         self.props: dict[int, list[int]] = {
@@ -447,6 +448,11 @@ class MbootCore:
                 if not self.ext_configured:
                     return Act(ST_MEMORY_NOT_CONFIGURED, kind="values", resp_tag=R_GET_PROPERTY)
                 return Act(kind="values", resp_tag=R_GET_PROPERTY, values=self.ext_attrs)
+            if ptag in self.prop_regions:
+                # a device with several internal memory regions answers these properties per region index; past the
+                # last region it wraps around to region 0 (how real bootloaders behave: the host stops on the repeat)
+                per_index = self.prop_regions[ptag]
+                return Act(kind="values", resp_tag=R_GET_PROPERTY, values=per_index[index % len(per_index)])
             if ptag not in self.props:
                 return Act(ST_UNKNOWN_PROPERTY, kind="values", resp_tag=R_GET_PROPERTY)
             return Act(kind="values", resp_tag=R_GET_PROPERTY, values=self.props[ptag])
